@@ -398,6 +398,29 @@ func uniqueKeys(n *ref.Node) bool {
 	return true
 }
 
+// applySet makes the Set* call of o on the given iterator.
+func applySet(it *simdjson.Iter, o editOp) error {
+	switch o.kind {
+	case opSetNull:
+		return it.SetNull()
+	case opSetTrue:
+		return it.SetBool(true)
+	case opSetFalse:
+		return it.SetBool(false)
+	case opSetInt:
+		return it.SetInt(setIntVals[o.route%3])
+	case opSetUint:
+		return it.SetUInt(setUintVals[o.route%3])
+	case opSetFloat:
+		return it.SetFloat(setFloatVals[o.route%3])
+	case opSetStrEmpty:
+		return it.SetString("")
+	case opSetStrEsc:
+		return it.SetString("x\"\n")
+	}
+	return it.SetStringBytes(fortyBytes)
+}
+
 // applyReal performs the op on the real tape. It returns the API error (if any) and a
 // description of a callback-protocol violation ("" if fine).
 func applyReal(pj *simdjson.ParsedJson, docs []*ref.Node, o editOp) (apiErr error, protocol string) {
@@ -411,27 +434,7 @@ func applyReal(pj *simdjson.ParsedJson, docs []*ref.Node, o editOp) (apiErr erro
 		return nil, "cannot reach position: " + err.Error()
 	}
 	if o.kind < nSetOps {
-		var serr error
-		switch o.kind {
-		case opSetNull:
-			serr = it.SetNull()
-		case opSetTrue:
-			serr = it.SetBool(true)
-		case opSetFalse:
-			serr = it.SetBool(false)
-		case opSetInt:
-			serr = it.SetInt(setIntVals[o.route%3])
-		case opSetUint:
-			serr = it.SetUInt(setUintVals[o.route%3])
-		case opSetFloat:
-			serr = it.SetFloat(setFloatVals[o.route%3])
-		case opSetStrEmpty:
-			serr = it.SetString("")
-		case opSetStrEsc:
-			serr = it.SetString("x\"\n")
-		case opSetStrBytes:
-			serr = it.SetStringBytes(fortyBytes)
-		}
+		serr := applySet(it, o)
 		if serr == nil {
 			// the iterator the call was made on must read the new value too (callers keep
 			// using the element iterator they edited through)
@@ -585,6 +588,10 @@ func stateAgreement(pj *simdjson.ParsedJson, docs []*ref.Node, mode simdjson.Com
 	}
 	if what, walker := compareWalkers(rt, ex, true); what != "" {
 		return "after serialize round trip: " + what, "serialize round trip/" + walker
+	}
+	// the source object must not be affected by a Deserialize into a fresh destination
+	if docs2, werr := walkFlat(pj); werr != nil || renderDocs(docs2, renderExact) != ex.exact {
+		return fmt.Sprintf("after serializing it and deserializing the bytes into a fresh destination, the source object reads %s (%v), was %s", clip(renderDocs(docs2, renderExact)), werr, clip(ex.exact)), "serialize round trip/source-changed"
 	}
 	return "", ""
 }
